@@ -3,9 +3,36 @@
     models (C01/C07/C18: ParserContext.add_arg consumes them). *)
 From InvokeVerif Require Export Common.Tree Common.StrUtil.
 
-(** [kind]: the type factory.  Only the four the task decorator can produce
-    from defaults / iterable are modelled. *)
-Inductive akind := KStr | KInt | KBool | KList.
+(** [kind]: the type factory.  The four the task decorator produces from
+    str/int/bool defaults and [iterable], plus [KOther]: any other callable
+    ([type(default)] for a float, bytes, complex, date ... default).  What such a
+    callable does with a piece of text is not invoke's business, so it is an
+    ORACLE carried by the kind: [ko_default] is the outcome for texts not listed,
+    [ko_table] lists the texts with a different outcome.  The harness fills the
+    table by calling the callable itself on every text that can reach it (every
+    substring of a command-line token, and "-c" for each character c). *)
+Inductive cast_out :=
+| COk (repr : string)     (* the callable returns a value; its repr *)
+| CFailV                  (* raises ValueError *)
+| CFailT.                 (* raises TypeError *)
+
+Inductive akind :=
+| KStr | KInt | KBool | KList
+| KOther (ty : string) (ko_default : cast_out) (ko_table : list (string * cast_out)).
+
+Fixpoint cast_lookup (s : string) (tbl : list (string * cast_out)) : option cast_out :=
+  match tbl with
+  | [] => None
+  | (k, o) :: rest => if String.eqb k s then Some o else cast_lookup s rest
+  end.
+
+(** outcome of [kind(text)] for an oracle kind *)
+Definition cast_other (dflt : cast_out) (tbl : list (string * cast_out)) (s : string) : cast_out :=
+  match cast_lookup s tbl with Some o => o | None => dflt end.
+
+(** values of other types are spelled "<type repr>" (the reserved spelling also
+    used for such defaults, Common/SigTypes.v [to_aval]) *)
+Definition other_repr (ty r : string) : string := "<" ++ ty ++ " " ++ r ++ ">".
 
 (** Values an Argument can hold or default to. *)
 Inductive aval :=
@@ -18,6 +45,7 @@ Inductive aval :=
 Definition akind_eqb (a b : akind) : bool :=
   match a, b with
   | KStr, KStr | KInt, KInt | KBool, KBool | KList, KList => true
+  | KOther x _ _, KOther y _ _ => String.eqb x y      (* the same callable, by type name *)
   | _, _ => false
   end.
 
@@ -46,6 +74,15 @@ Definition arg_name (a : argspec) : string :=
   match a_attr_name a with
   | Some n => n
   | None => match a_names a with n :: _ => n | [] => "" end
+  end.
+
+(** [kind(text)] succeeds: always for str/bool/list, [+-]?[0-9]+ for int, the
+    oracle for other callables *)
+Definition castable (a : argspec) (s : string) : bool :=
+  match a_kind a with
+  | KInt => match parse_int s with Some _ => true | None => false end
+  | KOther _ d tbl => match cast_other d tbl s with COk _ => true | _ => false end
+  | _ => true
   end.
 
 (** [Argument.takes_value] *)
